@@ -109,6 +109,10 @@ class Check:
     # -- finishing ----------------------------------------------------------
     def finish(self):
         """Write evidence, print verdict lines, return the exit code."""
+        if not self.coverage.get("evaluations", self.coverage.get("programs", 0)) and not self.violations:
+            # nothing was generated, run or judged: that is a failure of the machinery, never "OK"
+            from .tlc import MachineryError
+            raise MachineryError("%s: no case was evaluated" % self.prop)
         findings = load_findings()
         open_sigs = {f["signature"]: f for f in findings
                      if f["property"] == self.prop and f.get("status") == "open"}
